@@ -1,14 +1,23 @@
 #!/usr/bin/env python3
 """Run the repository's baseline test suite (hook guard OFF) and compare with /root/.vp/BASELINE.json.
 Exit 0 iff every test listed in stable_pass passes."""
-import json, os, subprocess, sys
+import json, os, shutil, subprocess, sys, tempfile
 
 REPO = os.environ.get("VERIF_REPO", "/repo")
 BASE = os.environ.get("VERIF_BASELINE", "/root/.vp/BASELINE.json")
 
 
 def main():
-    env = dict(os.environ, GOFLAGS="-mod=mod", GOPROXY="off", GOSUMDB="off", GOTOOLCHAIN="local")
+    # the project's own tests leave their temporary databases behind: give them a directory that is removed
+    tmp = tempfile.mkdtemp(prefix="verif-baseline-")
+    env = dict(os.environ, GOFLAGS="-mod=mod", GOPROXY="off", GOSUMDB="off", GOTOOLCHAIN="local", TMPDIR=tmp)
+    try:
+        return run(env)
+    finally:
+        shutil.rmtree(tmp, ignore_errors=True)
+
+
+def run(env):
     p = subprocess.run(["go", "test", "-json", "-vet=off", "-count=1", "-timeout", "25m", "./..."], cwd=REPO, env=env,
                        stdout=subprocess.PIPE, stderr=subprocess.DEVNULL, text=True)
     status = {}
